@@ -64,6 +64,10 @@ def make_step(rng, exact_ok):
         else:
             dx, dy = rng.uniform(-1e3, 1e3), rng.uniform(-1e3, 1e3)
         form = rng.choice(["two", "tuple", "point"])
+        if rng.random() < 0.12:
+            # the translation vector is one of the shape's own vertex objects (a Point2D is a legitimate
+            # vector); its value is resolved when the step is applied
+            return {"op": "move", "dx": "0", "dy": "0", "form": "own", "vi": rng.randrange(10 ** 6), "exact": exact_params}
         return {"op": "move", "dx": G.num_to_str(dx), "dy": G.num_to_str(dy), "form": form, "exact": exact_params}
     if kind == "scale":
         if exact_params:
@@ -96,6 +100,19 @@ def parse(s):
     return int(s)
 
 
+def own_vertex(shape, step):
+    verts = [v for jordan in shape.jordans for v in jordan.vertices]
+    return verts[step["vi"] % len(verts)]
+
+
+def resolve_own(shape, step, exact):
+    """fix the value of an `own` translation vector before the call (the model needs the value the
+    vertex had when the call was made)"""
+    x, y = S.raw_point(own_vertex(shape, step))
+    step["dx"], step["dy"] = G.num_to_str(x), G.num_to_str(y)
+    step["exact"] = bool(exact and isinstance(x, (int, Fr)) and isinstance(y, (int, Fr)))
+
+
 def apply_lib(shape, step):
     import shapepy
 
@@ -105,6 +122,8 @@ def apply_lib(shape, step):
             return shape.move(dx, dy)
         if step["form"] == "tuple":
             return shape.move((dx, dy))
+        if step["form"] == "own":
+            return shape.move(own_vertex(shape, step))
         return shape.move(shapepy.Point2D(dx, dy))
     if step["op"] == "scale":
         return shape.scale(parse(step["sx"]), parse(step["sy"]))
@@ -173,7 +192,7 @@ def model_final(original, applied, rational):
 def inverse_step(step):
     if step["op"] == "move":
         dx, dy = parse(step["dx"]), parse(step["dy"])
-        return {"op": "move", "dx": G.num_to_str(-dx), "dy": G.num_to_str(-dy), "form": step["form"], "exact": step["exact"]}
+        return {"op": "move", "dx": G.num_to_str(-dx), "dy": G.num_to_str(-dy), "form": step["form"] if step["form"] != "own" else "point", "exact": step["exact"]}
     if step["op"] == "scale":
         sx, sy = parse(step["sx"]), parse(step["sy"])
         if _rat(sx) and _rat(sy):
@@ -209,6 +228,9 @@ def case(ctx):
     isotropic_only = True
     for k, step in enumerate(steps):
         before = S.snap_shape(shape)
+        if step.get("form") == "own":
+            resolve_own(shape, step, exact)
+            case.count("transform:own-vertex-vectors")
         ret, exc = call(apply_lib, shape, step)
         case.count("transform:calls")
         if exc is not None:
